@@ -18,10 +18,11 @@ changes —, same element and position behind every access id).
 Scope. Proved for histories of Hopen/Hclose/Hstartaccess/Hstartwrite/Hsetlength/HLcreate/HLconvert/HLsetblockinfo/
 Happendable/Hseek/Htell/Hinquire/Hread/Hwrite/Htrunc/Hendaccess/Hdeldd with DD caching on (the default), under the side
 conditions `Safe` (`H4/ElemSpec.lean`, `OpSafe`), each of which is either plain API discipline (fresh access id, user
-tag, non-empty write, `Hclose` with no id open) or excludes one of the open findings F19, F20, F24 (reproductions
+tag, non-empty write, `Hclose` with no id open) or excludes one of the open findings F19, F20 (reproductions
 under the worker directory `repro/`; witness examples in section 6 below; keys in known_findings.json).
 F18 (Htrunc on a linked-block element cut its description record) and F23 (read beyond the end of an appendable element
-failed) were repaired in /repo (1e2fd75: refused; 21b8ab5: 0 bytes) and need no side condition; F20 was repaired for the in-place growth path only (998a325) and stays a condition of
+failed) were repaired in /repo (1e2fd75: refused; 21b8ab5: 0 bytes) and need no side condition, nor does F24 (two ids on
+an element without length: 7f7ac10, dc05857) any more; F20 was repaired for the in-place growth path only (998a325) and stays a condition of
 `Hopen` for the remaining paths (space beyond the recomputed `f_end_off` handed out again by `HPgetdiskblock`).
 A failing call is always admitted by `specStep`: no liveness is claimed except `hlpread_ok`; the reads that fail
 although a byte array would deliver (F26, and `Htrunc` refused on linked-block elements) are engine findings. Tied to the C by the engine only (modelled and
@@ -122,8 +123,9 @@ theorem hread_spec (w : World) (hw : WFW w) (h : Nat) (n : Int) : StepOK w (.rea
     the C carries it out (in place; extended in place at the end of the file; first write of a new element; linked
     blocks; silent promotion of an appendable element followed by a linked-block write), position advanced by `|bs|`,
     every other element untouched.
-    Side conditions (`OpSafe`): `bs ≠ []`; if the write promotes the element, no second id is open on it (F19); no second
-    id on an element that has no length yet (F24). Without them the statement is false for /repo (section 6). -/
+    Side conditions (`OpSafe`): `bs ≠ []`; if the write promotes the element, no second id is open on it (F19). Without the
+    latter the statement is false for /repo (section 6). Several ids on one element, also on one that has no length yet,
+    are covered (F24 repaired by 7f7ac10 and dc05857). -/
 theorem hwrite_spec_partial (w : World) (hw : WFW w) (h : Nat) (bs : Bytes) (hs : OpSafe w (.write h bs)) :
     StepOK w (.write h bs) := stepOK_write w hw h bs hs
 
@@ -148,6 +150,11 @@ theorem htrunc_linked_refused (w : World) (h n : Nat) (a : Acc) (ha : w.acc h = 
     invariant "nothing but zeros beyond `f_end_off`") -/
 theorem hwrite_gap_zero_filled (f : File) (o l p x : Nat) (h1 : o + l ≤ x) (h2 : x < o + p) :
     rd (f.pwrite (o + l) (zeros (p - l))).disk x = 0 := growth_gap_zero f o l p x h1 h2
+
+/-- **hsetlength_spec**: `Hsetlength` through any id, with any other ids open on the element: either FAIL with nothing
+    changed or the element becomes `len` reserved zero bytes. No side condition (7f7ac10; before, a second id on an
+    element without length allocated it again and the first id's data was lost: F24). -/
+theorem hsetlength_spec (w : World) (hw : WFW w) (h len : Nat) : StepOK w (.setlength h len) := stepOK_setlength w hw h len
 
 theorem hstartaccess_spec (w : World) (hw : WFW w) (h fi tag ref : Nat) (wr app : Bool)
     (hs : OpSafe w (.startaccess h fi tag ref wr app)) : StepOK w (.startaccess h fi tag ref wr app) :=
@@ -179,8 +186,8 @@ theorem hlcreate_spec (w : World) (hw : WFW w) (h fi tag ref blen nblk : Nat) (h
     interleaved access ids, on contiguous, silently promoted and linked-block elements, the list of results the
     implementation returns is a list of results of growable byte arrays (`specRun`: every count, every byte read,
     every length and position), and the final state is the byte arrays' final state.
-    That is FALSE for /repo (findings F19, F20, F24: concrete histories in section 6). Proved is
-    the statement under `Safe`, whose conjuncts name exactly those situations (plus: access ids are fresh when opened,
+    That is FALSE for /repo (findings F19, F20: concrete histories in section 6). Proved is
+    the statement under `Safe`, whose conjuncts name exactly those two situations (plus: access ids are fresh when opened,
     tag/refs are user tags, writes are not empty, `Hclose` is not called with ids still open on the file).
     The theorem also re-establishes the invariant `WFW` and gives the call-by-call simulation `Refines`. -/
 theorem elem_refines_bytes_partial (w : World) (ops : List Op) (hw : WFW w) (hs : Safe w ops) :
@@ -289,9 +296,20 @@ example : (run {} [.open 0 DFACC_CREATE 16, .startaccess 1 0 100 1 true true, .w
     [.ok, .ok, .num 3, .ok, .ok, .num 1, .num 2, .ok, .data 16 [0, 1, 0, 0, 0, 5, 0, 0, 16, 0, 0, 0, 0, 16, 0, 2]] := by
   decide +kernel
 
-/-- F24: two ids on an element without length: the second write allocates again, the first id's data is lost -/
+/-- F24 (since 7f7ac10): two ids on an element without length; the second id finds the length the first one gave it
+    (`HIrefresh_new`) and overwrites in place — byte-array semantics. The history satisfies `Safe`. -/
+def twoIds : List Op :=
+  [.open 0 DFACC_CREATE 16, .startaccess 1 0 100 1 true false, .startaccess 2 0 100 1 true false,
+   .write 1 [1, 2, 3], .write 2 [4], .seek 1 0 DF_START, .read 1 0, .inquire 2]
+example : (run {} twoIds).2 = [.ok, .ok, .ok, .num 3, .num 1, .ok, .data 3 [4, 2, 3], .info 3 294 1 0] := by decide +kernel
+theorem twoIds_safe : safeB {} twoIds = true := by decide +kernel
+example : (∃ vf, specRun (abs {}) twoIds (run {} twoIds).2 = some vf ∧ vf.Eqv (abs (run {} twoIds).1)) ∧
+    WFW (run {} twoIds).1 ∧ Refines {} twoIds := elem_refines_bytes_checked twoIds twoIds_safe
+
+/-- F24 residue (since dc05857): an id whose "new" flag went stale and that is then converted to linked blocks reads the
+    element, and `Hsetlength` through it is refused -/
 example : (run {} [.open 0 DFACC_CREATE 16, .startaccess 1 0 100 1 true false, .startaccess 2 0 100 1 true false,
-      .write 1 [1, 2, 3], .write 2 [4], .seek 1 0 DF_START, .read 1 0]).2 =
-    [.ok, .ok, .ok, .num 3, .num 1, .ok, .data 1 [4]] := by decide +kernel
+      .write 1 [1, 2, 3, 4], .endaccess 1, .hlconvert 2 8 2, .read 2 0, .setlength 2 5]).2 =
+    [.ok, .ok, .ok, .num 4, .ok, .ok, .data 4 [1, 2, 3, 4], .fail] := by decide +kernel
 
 end H4.Props.C01
